@@ -216,14 +216,15 @@ def grep_forbidden() -> list[str]:
                 hits.append(f'{p.relative_to(LEAN)}:{i}: {line.strip()}')
     return hits
 
-def audit_axioms(module: str, theorems: list[str]) -> dict:
+def audit_axioms(module, theorems: list[str]) -> dict:
     """`#print axioms` for every theorem; returns name -> list of axioms, or
     name -> None when the theorem does not exist / the module does not build."""
     res = {t: None for t in theorems}
     if not theorems:
         return res
-    src = f'import {module}\n' + ''.join(f'#print axioms {t}\n' for t in theorems)
-    f = LEAN / '.audit' / f'Audit_{module.replace(".", "_")}_{os.getpid()}.lean'
+    modules = [module] if isinstance(module, str) else list(module)
+    src = ''.join(f'import {m}\n' for m in modules) + ''.join(f'#print axioms {t}\n' for t in theorems)
+    f = LEAN / '.audit' / f'Audit_{modules[0].replace(".", "_")}_{os.getpid()}.lean'
     f.parent.mkdir(exist_ok=True)
     f.write_text(src)
     try:
